@@ -65,6 +65,8 @@ def gen_spf(g):
                         ('spfTemperror', 'SPF_TEMPERROR'), ('spfDnsHardError', 'SPF_DNS_HARD_ERROR'), ('spfIgnore', 'SPF_IGNORE')]:
         add(lean, _enum(g, 'include/qsmtpd/antispam.h', cname), 'enum spf_eval_result: ' + cname)
     add('spfMxPriorityImplicit', _enum(g, 'include/qdns.h', 'MX_PRIORITY_IMPLICIT'), 'enum mx_special_priorities')
+    add('spfDomainvalidMaxLabel', c('lib/dns_helpers.c', 'domainvalid', r'\(\(dt == NULL\) \? host : dt \+ 1\) > (\d+)', 'max label length'),
+        'domainvalid: h - ((dt == NULL) ? host : dt + 1) > N')
     add('spfDomainvalidMaxLen', c('lib/dns_helpers.c', 'domainvalid', r'\(h - host\) > (\d+)', 'max name length'), 'domainvalid: (h - host) > N')
     add('spfMaxDnsTerms', c(F, 'spf_dnsterm_allowed', r'\*queries <= (\d+)', 'term limit'),
         'spf_dnsterm_allowed: *queries <= N after the increment')
